@@ -3,7 +3,8 @@
 import json, subprocess, sys, re
 b = json.load(open('/root/.vp/BASELINE.json'))
 stable = set(b['stable_pass'])
-p = subprocess.run("cd /repo && cargo nextest run --workspace --no-fail-fast --test-threads 8 --offline 2>&1", shell=True, capture_output=True, text=True)
+root = sys.argv[1] if len(sys.argv) > 1 else "/repo"
+p = subprocess.run(f"cd {root} && cargo nextest run --workspace --no-fail-fast --test-threads 8 --offline 2>&1", shell=True, capture_output=True, text=True)
 passed, failed = set(), set()
 for line in p.stdout.splitlines():
     m = re.match(r"\s+(PASS|FAIL|SIGABRT|SIGSEGV|TIMEOUT|LEAK)\s+\[[^\]]*\]\s+(?:\(\s*\d+/\d+\)\s+)?(\S+)\s+(\S+)", line)
